@@ -18,7 +18,7 @@ const (
 
 var c06Names = []string{"resetsFlags", "metaCompare", "tsPositive", "voidClears", "pushChecksType", "setSliceReplaces",
 	"u32delReleases", "u32delChecksType", "incFailClean", "noEmptyLive", "arekAllFalse", "countMissingOk",
-	"setErrSingle", "fltCondDirect", "keyChecked", "recreateKeepsPointer", "patchAsksFirst", "saveReleasesImmediate", "wireExpNe0"}
+	"setErrSingle", "fltCondDirect", "keyChecked", "recreateKeepsPointer", "patchAsksFirst", "fltSetBitwise", "saveReleasesImmediate", "wireExpNe0"}
 
 func init() {
 	Register("C06", Extractor{Import: "Hv.Props.C06", Type: "Hv.C06.Facts", Run: func(fs *Facts) {
@@ -785,6 +785,47 @@ func c06All(gw, sw, tr *File) map[string]c06Fact {
 			}
 		}
 		out["patchAsksFirst"] = fact
+	}
+
+	// ---- fltSetBitwise: SetContentFloat32/64 decide "not changed" on the bits (yes) or with == (no) ------------
+	{
+		fact := unk(tr)
+		yes, no, other := 0, 0, 0
+		for _, w := range []string{"32", "64"} {
+			fd := tr.Func("treasure", "SetContentFloat"+w)
+			if fd == nil {
+				other++
+				continue
+			}
+			found := false
+			ast.Inspect(fd.Body, func(n ast.Node) bool {
+				is, ok := n.(*ast.IfStmt)
+				if !ok || !tr.Contains(is.Body, "return") || !strings.Contains(tr.Str(is.Cond), "Content.Float"+w) {
+					return true
+				}
+				found = true
+				c := tr.Str(is.Cond)
+				switch {
+				case strings.HasSuffix(c, "*t.treasure.Content.Float"+w+" == content"):
+					no++
+				case strings.HasSuffix(c, "math.Float"+w+"bits(*t.treasure.Content.Float"+w+") == math.Float"+w+"bits(content)"):
+					yes++
+				default:
+					other++
+				}
+				return true
+			})
+			if !found {
+				other++
+			}
+		}
+		switch {
+		case other == 0 && yes == 2:
+			fact = c06Fact{Yes, tr.Path}
+		case other == 0 && no == 2:
+			fact = c06Fact{No, tr.Path}
+		}
+		out["fltSetBitwise"] = fact
 	}
 
 	// ---- wireExpNe0: treasureToKeyValuePair shows ExpiredAt when `!= 0` (yes) / `> 0` (no) ---------------
